@@ -447,6 +447,7 @@ func (e *env) opIndex(op *Op) int {
 
 func (e *env) setup() (restore func()) {
 	p := e.p
+	p.resetGlobals()
 	api := reflect.New(p.APIType)
 	for _, op := range p.Ops {
 		api.Elem().Field(op.Field).Set(e.handlerFor(op))
